@@ -346,6 +346,7 @@ type c07Scenario struct {
 	noBucket  bool  // start without the bucket
 	threads   [][]cOp
 	final     []cOp
+	lessBound int // explored with a preemption bound lowered by this much (4-5 client scenarios)
 }
 
 var allSchedKinds = []drv.Kind{drv.Mem, drv.Bolt, drv.MultiMem, drv.SingleMem}
@@ -357,6 +358,13 @@ func bigBody(tag string, n int) string {
 func c07Scenarios() []c07Scenario {
 	eA := drv.ETagOf([]byte("a"))
 	return []c07Scenario{
+		// four and five concurrent clients on one key (bound lowered by one: 1 quick, 2 thorough)
+		{name: "four-clients", kinds: allSchedKinds, lessBound: 1, setupOps: []cOp{{Kind: "put", Key: "k", Body: "A"}},
+			threads: [][]cOp{{{Kind: "put", Key: "k", Body: "BB"}}, {{Kind: "put", Key: "k", Body: "CCC"}}, {{Kind: "delete", Key: "k"}}, {{Kind: "get", Key: "k"}}},
+			final:   []cOp{{Kind: "get", Key: "k"}, {Kind: "list"}}},
+		{name: "five-clients-two-keys", kinds: []drv.Kind{drv.Mem, drv.MultiMem}, lessBound: 1, setupOps: []cOp{{Kind: "put", Key: "k", Body: "A"}},
+			threads: [][]cOp{{{Kind: "put", Key: "k", Body: "BB"}}, {{Kind: "copy", Key: "k", Key2: "k2"}}, {{Kind: "delete", Key: "k2"}}, {{Kind: "get", Key: "k2"}}, {{Kind: "list"}}},
+			final:   []cOp{{Kind: "get", Key: "k"}, {Kind: "get", Key: "k2"}, {Kind: "list"}}},
 		{name: "put-put-get", kinds: allSchedKinds, setupOps: []cOp{{Kind: "put", Key: "k", Body: "A"}},
 			threads: [][]cOp{{{Kind: "put", Key: "k", Body: "BB"}}, {{Kind: "put", Key: "k", Body: "CCC"}}, {{Kind: "get", Key: "k"}}},
 			final:   []cOp{{Kind: "get", Key: "k"}, {Kind: "list"}}},
@@ -844,10 +852,10 @@ func c07Race(args []string) int {
 }
 
 func runC07(c *engine.Ctx) {
-	c.Rule = "schedule = one complete interleaving of a 2-3 thread scenario (1-2 requests each on 1-3 keys) at the visible operations (mutex/RWMutex acquisition, bolt transactions, request-body reads, response writes, file-system mutations and handle reads), explored depth-first with iterative preemption bounding; oracle = deadlock freedom, no panic, and porcupine linearizability of the call/return history (bodies, ETag, Content-Length, metadata, listings, version ids, parts) including quiescent final reads against the sequential model; states = scenarios x worlds, transitions = scheduling points executed, distinct_nontrivial = distinct observable outcomes over all schedules"
-	c.Assumptions = append(c.Assumptions, "sequential consistency between visible operations; unsynchronised accesses are left to the separate free-running -race pass over the same scenario bodies", "a copy is modelled as a read of the source and a write of the destination at two instants of its interval (S3 copy is not atomic with respect to the source)", "bbolt's internal serialisation and afero MemMapFs locking are trusted; a bolt transaction is one atomic step", "3 threads stand in for 2..16 clients")
+	c.Rule = "schedule = one complete interleaving of a 2-5 thread scenario (1-2 requests each on 1-3 keys) at the visible operations (mutex/RWMutex acquisition, bolt transactions, request-body reads, response writes, file-system mutations and handle reads), explored depth-first with iterative preemption bounding; oracle = deadlock freedom, no panic, and porcupine linearizability of the call/return history (bodies, ETag, Content-Length, metadata, listings, version ids, parts) including quiescent final reads against the sequential model; states = scenarios x worlds, transitions = scheduling points executed, distinct_nontrivial = distinct observable outcomes over all schedules"
+	c.Assumptions = append(c.Assumptions, "sequential consistency between visible operations; unsynchronised accesses are left to the separate free-running -race pass over the same scenario bodies", "a copy is modelled as a read of the source and a write of the destination at two instants of its interval (S3 copy is not atomic with respect to the source)", "bbolt's internal serialisation and afero MemMapFs locking are trusted; a bolt transaction is one atomic step", "2-5 threads stand in for 2..16 clients (the 4- and 5-client scenarios with a preemption bound one lower)")
 	bound := 2
-	maxEx := int64(60000)
+	maxEx := int64(400000)
 	if !quick(c) {
 		bound = 3
 		maxEx = 1500000
@@ -913,7 +921,7 @@ func runC07(c *engine.Ctx) {
 	results := make([]*c07JobResult, len(jobs))
 	engine.ParallelFor(len(jobs), func(_, i int) {
 		jb := jobs[i]
-		cmd := exec.Command(exe, "-scratch", drv.Scratch(), "-sub", "c07", "--", jb.sc.name, string(jb.kind), strconv.Itoa(bound), strconv.FormatInt(maxEx, 10))
+		cmd := exec.Command(exe, "-scratch", drv.Scratch(), "-sub", "c07", "--", jb.sc.name, string(jb.kind), strconv.Itoa(bound-jb.sc.lessBound), strconv.FormatInt(maxEx, 10))
 		cmd.Env = append(os.Environ(), "GOMAXPROCS=2")
 		out, err := cmd.CombinedOutput()
 		var res *c07JobResult
